@@ -85,16 +85,18 @@ struct Facts {
   bool erasedAny = false;      // vector column: some lazily erased row recorded
   bool erasedAbsent = false;   // vector column: a recorded erased row has no entry in the column
   bool heapViolated = false;   // heap column: the array is not a heap
+  bool reorderUnsafe = false;  // a reorder looping over 0..number_of_columns-1 would leave the containers
   std::string str() const {
-    std::string s = "00000 0";
-    s[0] = '0' + rowSwapped; s[1] = '0' + mapsIdentity; s[2] = '0' + staleColIndex; s[3] = '0' + erasedAny;
-    s[4] = '0' + erasedAbsent; s[6] = '0' + heapViolated;
+    std::string s = "rows_swapped=0 maps_identity=0 stale_column_index=0 erased=0 erased_absent=0 not_heap=0 reorder_unsafe=0";
+    bool v[7] = {rowSwapped, mapsIdentity, staleColIndex, erasedAny, erasedAbsent, heapViolated, reorderUnsafe};
+    int k = 0;
+    for (auto& c : s) if (c == '=') { (&c)[1] = v[k++] ? '1' : '0'; }
     return s;
   }
   void parse(const std::string& s) {
-    if (s.size() < 7) return;
-    rowSwapped = s[0] == '1'; mapsIdentity = s[1] == '1'; staleColIndex = s[2] == '1'; erasedAny = s[3] == '1';
-    erasedAbsent = s[4] == '1'; heapViolated = s[6] == '1';
+    bool* v[7] = {&rowSwapped, &mapsIdentity, &staleColIndex, &erasedAny, &erasedAbsent, &heapViolated, &reorderUnsafe};
+    int k = 0;
+    for (size_t i = 0; i + 1 < s.size() && k < 7; ++i) if (s[i] == '=') *v[k++] = s[i + 1] == '1';
   }
 };
 struct Outcome {
@@ -260,6 +262,11 @@ struct Driver {
           for (size_t i = 0; i < B.indexToRow_.size(); ++i) if (B.indexToRow_[i] != i) f.mapsIdentity = false;
           for (size_t i = 0; i < B.rowToIndex_.size(); ++i) if (B.rowToIndex_[i] != i) f.mapsIdentity = false;
           if (B.rowToIndex_.size() != B.indexToRow_.size()) f.mapsIdentity = false;
+          if (B.indexToRow_.size() < B.nextInsertIndex_ || B.rowToIndex_.size() < B.nextInsertIndex_) f.reorderUnsafe = true;
+          if (B.matrix_.size() < B.nextInsertIndex_) f.reorderUnsafe = true;
+        }
+        if constexpr (MAPC) {
+          for (unsigned i = 0; i < B.matrix_.size(); ++i) if (!B.matrix_.count(i)) f.reorderUnsafe = true;
         }
       }
     }
@@ -334,29 +341,34 @@ struct Driver {
   }
 
   // Names the situation in which a disagreement was observed, so that different root causes get different classes.
-  // pre = facts before the last operation, post = facts at the moment of the observation.
-  std::string situation(const Op* o, const Model& before, const Facts& pre, const Facts& post, bool exception) const {
+  // pre = facts before the last operation, post = facts at the moment of the observation (== pre for a death).
+  std::string situation(const Op* o, const Model& before, const Facts& pre, const Facts& post, bool abnormal) const {
     const Shape& S = rules.S;
     if (!o) return "initial_state";
+    std::string nopath = rules.risky(before, *o);
+    if (S.comp && !nopath.empty()) return nopath;
     bool range_op = o->k == ADD_R || o->k == MTA_R || o->k == MSA_R;
-    bool add_op = range_op || o->k == ADD || o->k == MTA || o->k == MSA;
-    bool target_zero = add_op && before.cols.count(o->b) && rules.is_zero(before.cols.at(o->b));
+    bool col_op = o->k == ADD || o->k == MTA || o->k == MSA;
+    bool target_zero = (range_op || col_op) && before.cols.count(o->b) && rules.is_zero(before.cols.at(o->b));
+    bool target_emptied = (o->k == MTA || o->k == MTA_R) && rules.U.mod(o->q) == 0;
+    if (S.swaps) {
+      if (!pre.rowSwapped && !pre.mapsIdentity) return "reorder_bounded_by_number_of_columns";  // left behind by an earlier reorder
+      if (abnormal && o->k == INS_AT && !S.mapc && pre.rowSwapped) return "insert_column_at_counted_before_pending_reorder";
+      if (abnormal && (pre.rowSwapped || post.rowSwapped) && (pre.reorderUnsafe || post.reorderUnsafe)) return "reorder_bounded_by_number_of_columns";
+      if (range_op && pre.rowSwapped && !pre.mapsIdentity) return "entry_range_rows_not_translated_under_pending_row_swap";
+      if (S.ra && (pre.staleColIndex || post.staleColIndex || o->k == SWAP_C))
+        return S.intr ? "column_index_outdated_after_swap_columns" : "set_rows_after_swap_columns";
+      if (!nopath.empty()) return nopath;
+      if (!post.mapsIdentity && !post.rowSwapped) return "reorder_bounded_by_number_of_columns";
+    }
     if (CT == Column_types::HEAP) {
       if (pre.heapViolated || post.heapViolated) return "heap_column_not_a_heap_after_range_copied_into_empty_column";
       if ((o->k == MSA || o->k == MSA_R) && target_zero) return "heap_column_multiply_source_and_add_into_empty_column";
     }
     if (CT == Column_types::VECTOR) {
       if (pre.erasedAbsent || post.erasedAbsent) return "vector_column_zeroed_absent_entry_recorded_as_erased";
-      if (pre.erasedAny || post.erasedAny) return std::string("vector_column_lazily_erased_entry") + (target_zero ? "_and_empty_target" : "");
-    }
-    if (S.swaps) {
-      if (range_op && pre.rowSwapped && !pre.mapsIdentity) return "entry_range_rows_not_translated_under_pending_row_swap";
-      if (exception && o->k == INS_AT && !S.mapc && pre.rowSwapped) return "insert_column_at_counted_before_pending_reorder";
-      if (S.ra && (pre.staleColIndex || post.staleColIndex || o->k == SWAP_C))
-        return S.intr ? "column_index_outdated_after_swap_columns" : "set_rows_after_swap_columns";
-      if (o->k == SWAP_R && (!before.known.count(o->a) || !before.known.count(o->b))) return "swap_rows_with_row_unknown_to_the_maps";
-      if (exception && pre.rowSwapped) return "reorder_bounded_by_number_of_columns";
-      if (!post.mapsIdentity && !post.rowSwapped) return "reorder_bounded_by_number_of_columns";
+      if (pre.erasedAny && col_op && (target_zero || target_emptied)) return "vector_column_lazily_erased_source_copied_into_empty_column";
+      if (pre.erasedAny || post.erasedAny) return "vector_column_lazily_erased_entry";
     }
     return std::string("unclassified_") + kind_name[o->k];
   }
@@ -369,8 +381,10 @@ struct Driver {
     auto bad = [&](const std::string& observer, const std::string& detail) {
       if (sit_cache.empty()) sit_cache = sit();
       out.diverged = true;
-      if (out.findings.size() < 12)
-        out.findings.push_back({"C09:" + observer + ":" + sit_cache, S.name + " " + detail + " model=" + mod.key() + " impl=" + internals(m)});
+      // observer groups: "rows" = get_row; "content" = every reader of columns and entries
+      std::string cls = std::string("C09:") + (observer == "get_row" ? "rows" : "content") + ":" + sit_cache;
+      for (auto& f : out.findings) if (f.cls == cls) return;  // the first disagreement of a class is the one reported
+      out.findings.push_back({cls, S.name + " " + observer + ": " + detail + " model=" + mod.key() + " impl=" + internals(m)});
     };
     long long* ncmp = out.ncmp;
 
@@ -617,8 +631,9 @@ struct Driver {
       before = model_after(hist, hist.size() - 1);
       o = &rules.ops[hist.back()];
       why = rules.risky(before, *o);
-      // a situation in which every execution has died so far is not executed again and again in this process
-      if (!why.empty() && rules.certain(why) && deaths[why] >= 3) {
+      // a situation without a dedicated code path in which the executor already died three times in this process is
+      // counted, not executed again and again (each death costs a sanitizer report and a new executor)
+      if (!why.empty() && deaths[why] >= 3) {
         if (!quiet) vf::stats().add("not_executed.assumed_crash." + why);
         diverged = true;
         return "BAD";
@@ -669,6 +684,14 @@ struct Driver {
   }
 };
 
+static std::vector<std::string> split(const std::string& s, char sep) {
+  std::vector<std::string> r;
+  std::string cur;
+  for (char c : s) { if (c == sep) { if (!cur.empty()) r.push_back(cur); cur.clear(); } else cur += c; }
+  if (!cur.empty()) r.push_back(cur);
+  return r;
+}
+
 // ---------------------------------------------------------------------------------------------------------------
 struct RunArgs {
   Universe U;
@@ -689,9 +712,13 @@ void run_variant(RunArgs& A) {
   using O = Opt<s.z2, CT, s.ra, s.remrow, s.intr, s.mapc, s.swaps, s.comp>;
   Shape S = to_shape(V);
   if (s.z2 != (A.U.P == 2)) return;
-  if (!A.only.empty()) {
+  if (!A.only.empty()) {  // "a&b+c": (a and b) or c, substrings of the configuration name
     bool any = false;
-    for (auto& f : A.only) if (S.name.find(f) != std::string::npos) any = true;
+    for (auto& f : A.only) {
+      bool all = true;
+      for (auto& g : split(f, '&')) if (S.name.find(g) == std::string::npos) all = false;
+      if (all) any = true;
+    }
     if (!any) return;
   }
   if (!A.replay_cfg.empty() && S.name != A.replay_cfg) return;
@@ -740,14 +767,6 @@ void dispatch(RunArgs& A) {
     if constexpr ((V % VF_NPARTS) == VF_PART && vvalid(V)) run_variant<V>(A);
     dispatch<V + 1>(A);
   }
-}
-
-static std::vector<std::string> split(const std::string& s, char sep) {
-  std::vector<std::string> r;
-  std::string cur;
-  for (char c : s) { if (c == sep) { if (!cur.empty()) r.push_back(cur); cur.clear(); } else cur += c; }
-  if (!cur.empty()) r.push_back(cur);
-  return r;
 }
 
 int main(int argc, char** argv) {
